@@ -23,11 +23,14 @@ STAGE = {
     'tryf': 'foreach v%d { try { fl; out never }; out "t$v%d" }',
     'trys': 'foreach v%d { try { out "s$v%d" || out never } }',
     'tpf': 'foreach v%d { trypipe { fl | out never; out never2 }; out "p$v%d" }',
+    'ffif': 'qff -> if { out T } else { out F }',
+    'fsif': 'qfs -> if { out T } else { out F }',
 }
 
 
 def render(case, cid):
-    pre = 'function fnst%d { -> foreach fv { out "f$fv" } }\nfunction fl { return 1 }\n' % cid
+    pre = ('function fnst%d { -> foreach fv { out "f$fv" } }\nfunction fl { return 1 }\n'
+           'function qff { -> foreach qv { out "q$qv" }; return 1 }\nfunction qfs { -> foreach qv { out "q$qv" }; return 0 }\n') % cid
     parts = []
     n = 0
     for p in case['prog']:
